@@ -218,6 +218,7 @@ func writeKerberosFiles(dir string) (keytab, krb5conf string) {
 type gwYaml struct {
 	port                  int
 	tlsOn                 bool
+	tlsWord               string // when set, written as the value of server.tls (certificate files are given too)
 	auth                  []string
 	hosts                 []string
 	hostSelection         string
@@ -235,7 +236,9 @@ func (g *gwYaml) render() string {
 	var sb strings.Builder
 	sb.WriteString("Server:\n")
 	fmt.Fprintf(&sb, "  gatewayaddress: localhost:%d\n  port: %d\n", g.port, g.port)
-	if g.tlsOn {
+	if g.tlsWord != "" {
+		fmt.Fprintf(&sb, "  certfile: %s\n  keyfile: %s\n  tls: %s\n", g.certFile, g.keyFile, g.tlsWord)
+	} else if g.tlsOn {
 		fmt.Fprintf(&sb, "  certfile: %s\n  keyfile: %s\n", g.certFile, g.keyFile)
 	} else {
 		sb.WriteString("  tls: disable\n")
